@@ -94,6 +94,23 @@ theorem c16_cache_forgets (P : Prims) (cfg : Cfg) (ma m e : Int) (ops : List Op)
     rw [advance_mono] at hnew
     omega
 
+/-- What the cache holds, in every reachable state: only restatements of backend records —
+    a Basic entry is a (user, password) pair the backend accepts under the entry's rule, a
+    Digest entry is the backend's (user name, H(A1)) for the entry's key, realm and digest
+    length (`EntryOk`).  Nothing a failed attempt supplied is ever stored. -/
+theorem c16_cache_holds_only_backend_records (P : Prims) (cfg : Cfg) (m e : Int) (ops : List Op)
+    (p : Int × Entry) (hp : p ∈ (run P cfg (init m e) ops).cache) : EntryOk P cfg p.2 :=
+  run_cacheOk ops init_cacheOk p hp
+
+/-- A nonce lighttpd issues (mod_auth_append_nonce() at time `ts`, any random number, with or
+    without nonce-secret) passes the nonce validation for the following 600 seconds — so
+    `NonceFresh` describes exactly the issued nonces' shape, not an unsatisfiable condition —
+    and asks the client to move to a new nonce after 540 seconds. -/
+theorem c16_issued_nonce_accepted (P : Prims) (rule : Rule) (epoch ts : Int) (rnd dalgo : Nat)
+    (h0 : 0 ≤ ts) (h63 : ts < 2 ^ 63) (hle : ts ≤ epoch) (hage : epoch - ts ≤ 600) (hrnd : rnd < 2 ^ 32) :
+    validateNonce P rule epoch (appendNonce P ts rule.secret rnd) dalgo = .ok (decide (epoch - ts > 540)) :=
+  validateNonce_appendNonce P rule epoch ts rnd dalgo h0 h63 hle hage hrnd
+
 /-- Everything else is refused: the answer to a request for a path under a rule is never
     "pass through"; it is either served — and then carries valid credentials of an authorized
     user for the rule's scheme — or one of the refusals 401 (with challenge) / 400, or 500
@@ -186,6 +203,14 @@ example : (handle Ex.P Ex.cfg Ex.st0 (Ex.digestReq "GET" "bob" "/dig/x" "9fe9b18
 example : (handle Ex.P Ex.cfg (run Ex.P Ex.cfg Ex.st0 [.request (Ex.basicReq "YWxpY2U6d29uZGVy")])
              (Ex.basicReq "Ym9iOndvbmRlcg==")).2 = .refuse (.s401b false) := by decide
 example : (run Ex.P Ex.cfg Ex.st0 [.request (Ex.basicReq "YWxpY2U6d29uZGVy")]).cache.length = 1 := by decide
+-- c16_cache_holds_only_backend_records: the one entry is alice's verified password
+example : (run Ex.P Ex.cfg Ex.st0 [.request (Ex.basicReq "YWxpY2U6d29uZGVy"),
+             .request (Ex.basicReq "Ym9iOndvbmRlcg==")]).cache.map (fun p => (p.2.username, p.2.pw))
+    = [(ofString "alice", ofString "wonder")] := by decide
+-- c16_issued_nonce_accepted: a nonce issued under a nonce-secret, checked 541 s later
+example : (validateNonce Ex.P Ex.secretRule 1700000541
+            (appendNonce Ex.P 1700000000 (some (ofString "s3cr3t")) 12345) 2).toOption = some true := by
+  decide +kernel
 -- c16_cache_expires / c16_cache_forgets: the entry is gone 608 s later
 example : (run Ex.P Ex.cfg Ex.st0 [.request (Ex.basicReq "YWxpY2U6d29uZGVy"), .adv 608]).cache = [] := by decide +kernel
 
